@@ -172,7 +172,9 @@ def locate(ctx, name, args, stdin=None, timeout=60):
     """Site of a crash seen on the plain build: repeat the run on the ASan+UBSan build (forked copy)
     and return the innermost libabigail frame, or None."""
     try:
-        rc, out, err = run_tool(ctx, "asan", name, args, timeout=timeout, stdin=stdin)
+        # a real process: a fork server that has already run requests in-process carries that mode's signal handlers
+        # (which replace the sanitizer's), so its forked copies would print no stack
+        rc, out, err = run_tool(ctx, "asan", name, args, timeout=timeout, stdin=stdin, spawn=True)
     except Exception:
         return None
     c = classify(rc, err)
